@@ -844,6 +844,15 @@ impl<'a> RepositoryUpdate<'a> {
         ) {
             Ok(Some(notify)) => notify,
             Ok(None) => {
+                if current.is_none() {
+                    // Not modified from what? We don’t have anything so
+                    // there was no conditional request. The server is
+                    // broken and we don’t have any data.
+                    self.log.warn(format_args!(
+                        "Not modified response without a local copy."
+                    ));
+                    return Ok(false)
+                }
                 self.not_modified(current)?;
                 return Ok(true)
             }
